@@ -2,24 +2,40 @@
 From AV Require Import Model.Schema Model.Diff Spec.C06 Spec.C07 Proofs.SchemaProof Proofs.C07Proof.
 
 (* each applicable mutation of the catalogue yields, under every setting that looks for it, an operation of the
-   corresponding kind(s) on the mutated object *)
-Theorem C07_detects : forall g A m, wf_schemab A = true -> applicable m A = true -> enabled g m = true ->
+   corresponding kind(s) on the mutated object (defaults_ok A is used by the "server default changed" kind only: the
+   reflected form of the old default must normalise like the old default) *)
+Theorem C07_detects : forall g A m, wf_schemab A = true -> defaults_ok A = true -> applicable m A = true -> enabled g m = true ->
   detects A m (diff g (reflect_sqlite A) (apply_mut m A)).
-Proof. intros g A m HA Ha He. rewrite reflect_sqlite_id. apply detects_catalogue; auto. apply wf_nd_schema; auto. Qed.
+Proof. intros g A m HA Hd Ha He. apply detects_catalogue; auto; [apply wf_nd_schema|apply dok_of_defaults_ok]; auto. Qed.
 Print Assumptions C07_detects.
 
 (* ... and every emitted operation is about an object the mutation touches *)
-Theorem C07_nothing_unrelated : forall g A m, wf_schemab A = true -> applicable m A = true -> wf_schemab (apply_mut m A) = true ->
+Theorem C07_nothing_unrelated : forall g A m, wf_schemab A = true -> applicable m A = true ->
+  wf_schemab (apply_mut m A) = true -> defaults_ok (apply_mut m A) = true ->
   nothing_else A m (diff g (reflect_sqlite A) (apply_mut m A)).
-Proof. intros g A m HA Ha HB. rewrite reflect_sqlite_id. apply nothing_else_catalogue; auto; apply wf_nd_schema; auto. Qed.
+Proof. intros g A m HA Ha HB Hd. apply nothing_else_catalogue; auto; try (apply wf_nd_schema; auto). apply dok_of_defaults_ok; auto. Qed.
 Print Assumptions C07_nothing_unrelated.
 
 (* the general fact behind it, for ALL pairs of well-formed schemas: an operation is only ever emitted for an object
-   whose lookup (table by name, column / constraint / index by table and name) differs between database and model *)
-Theorem C07_diff_local : forall g A B o, wf_schemab A = true -> wf_schemab B = true ->
+   whose lookup (table by name; column / constraint / index / foreign key by table and name) differs between database and model *)
+Theorem C07_diff_local : forall g A B o, wf_schemab A = true -> wf_schemab B = true -> defaults_ok B = true ->
   In o (diff g (reflect_sqlite A) B) -> changed A B (op_target o).
-Proof. intros g A B o HA HB. rewrite reflect_sqlite_id. apply diff_local; apply wf_nd_schema; auto. Qed.
+Proof. intros g A B o HA HB Hd. apply diff_local; try (apply wf_nd_schema; auto). apply dok_of_defaults_ok; auto. Qed.
 Print Assumptions C07_diff_local.
+
+(* without defaults_ok the "nothing unrelated" half is false: a string default such as "(a)" is reported on every column
+   that carries it, whatever the change was (same root cause as C06_quiet_refuted) *)
+Open Scope N_scope.
+Definition bad7_A : schema :=
+  [mkTable 0 [mkCol 0 (mkTy 0 []) false true None; mkCol 1 (mkTy 3 [20]) true false (Some (DLit [40;97;41])); mkCol 2 (mkTy 0 []) true false None] [] []].
+Theorem C07_nothing_unrelated_refuted : exists g A m, wf_schemab A = true /\ applicable m A = true /\ wf_schemab (apply_mut m A) = true /\
+  ~ nothing_else A m (diff g (reflect_sqlite A) (apply_mut m A)).
+Proof. exists (mkCfg true true), bad7_A, (MFlipNullable 0 2). repeat (split; [reflexivity|]).
+  intros H. specialize (H (OpAlterColumn 0 1 true (mkTy 3 [20]) (Some (DExpr [39;40;97;41;39])) None None (Some (Some (DLit [40;97;41]))))).
+  assert (Hin: In (OpAlterColumn 0 1 true (mkTy 3 [20]) (Some (DExpr [39;40;97;41;39])) None None (Some (Some (DLit [40;97;41]))))
+                  (diff (mkCfg true true) (reflect_sqlite bad7_A) (apply_mut (MFlipNullable 0 2) bad7_A))) by (vm_compute; auto).
+  apply H in Hin. vm_compute in Hin. destruct Hin as [Hin|[]]. discriminate. Qed.
+Print Assumptions C07_nothing_unrelated_refuted.
 
 Theorem C07_decider_sound : forall i out, check_C07 i out = true -> C07_holds i out.
 Proof. exact check_C07_sound. Qed.
@@ -31,15 +47,16 @@ Print Assumptions C07_model_holds.
 
 (* non-vacuity: every mutation kind of the catalogue is applicable to a concrete well-formed schema, is detected, and the
    decider accepts the model's output *)
-Open Scope N_scope.
 Definition ex7_A : schema :=
-  [mkTable 0 [mkCol 0 (mkTy 0 []) false true; mkCol 1 (mkTy 3 [20]) true false; mkCol 2 (mkTy 5 [10;2]) true false]
-             [Uq 1 [1]; Ix 2 [2;1] false];
-   mkTable 1 [mkCol 0 (mkTy 0 []) false true] []].
+  [mkTable 0 [mkCol 0 (mkTy 0 []) false true None; mkCol 1 (mkTy 3 [20]) true false (Some (DLit [53])); mkCol 2 (mkTy 5 [10;2]) true false None]
+             [Uq 1 [1]; Ix 2 [2;1] false] [mkFk 1 [2] 0 [0]];
+   mkTable 1 [mkCol 0 (mkTy 0 []) false true None] [] []].
 Definition ex7_muts : list mut :=
-  [MAddTable (mkTable 2 [mkCol 0 (mkTy 0 []) false true] [Ix 20 [0] false]); MDropTable 0;
-   MAddColumn 1 (mkCol 5 (mkTy 4 []) true false); MDropColumn 1 0; MFlipNullable 0 1; MChangeType 0 2 (mkTy 9 []);
-   MAddCons 0 (Uq 3 [2]); MAddCons 0 (Ix 4 [0] true); MDropCons 0 1; MDropCons 0 2; MChangeCons 0 (Uq 1 [2]); MChangeCons 0 (Ix 2 [2;1] true)].
+  [MAddTable (mkTable 2 [mkCol 0 (mkTy 0 []) false true None] [Ix 20 [0] false] [mkFk 20 [0] 0 [0]]); MDropTable 1;
+   MAddColumn 1 (mkCol 5 (mkTy 4 []) true false (Some (DExpr [49]))); MDropColumn 1 0; MFlipNullable 0 1; MChangeType 0 2 (mkTy 9 []);
+   MChangeDefault 0 1 None; MChangeDefault 0 1 (Some (DExpr [39;54;39])); MChangeDefault 0 2 (Some (DLit [120]));
+   MAddCons 0 (Uq 3 [2]); MAddCons 0 (Ix 4 [0] true); MDropCons 0 1; MDropCons 0 2; MChangeCons 0 (Uq 1 [2]); MChangeCons 0 (Ix 2 [2;1] true);
+   MAddFk 0 (mkFk 2 [1;2] 0 [1;0]); MAddFk 1 (mkFk 10 [0] 0 [0]); MDropFk 0 1].
 Example C07_nonvacuous :
   forallb (fun m => inclass_C07 (ex7_A, m) && check_C07 (ex7_A, m) (model_C07 (ex7_A, m))
                     && negb (is_nil (diff (mkCfg true true) (reflect_sqlite ex7_A) (apply_mut m ex7_A)))) ex7_muts = true.
